@@ -526,6 +526,32 @@ class World(object):
 
 
 @contextlib.contextmanager
+def wall_clock(mode):
+    """The harness owns the WALL clock for the duration of a case
+    (time.time / time.time_ns; monotonic and performance counters are left
+    alone, and the harness itself only uses those): 'steps_back' - every
+    reading is an hour earlier than the previous one (an administrator or
+    NTP setting the clock back while something is in flight); 'frozen' - the
+    same instant every time."""
+    if not mode:
+        yield
+        return
+    real, real_ns = time.time, time.time_ns
+    state = [real()]
+
+    def fake():
+        if mode == 'steps_back':
+            state[0] -= 3600.0
+        return state[0]
+    time.time = fake
+    time.time_ns = lambda: int(fake() * 1e9)
+    try:
+        yield
+    finally:
+        time.time, time.time_ns = real, real_ns
+
+
+@contextlib.contextmanager
 def installed(world):
     """Patch minecraft.networking.connection for the duration of a case."""
     from minecraft.networking import connection as C
